@@ -15,7 +15,7 @@ from hypothesis import strategies as st
 from vp.gen.morph import fl
 from vp.ref import mech as R2
 
-MECHS = ["HH", "Leak", "Na", "K", "Km", "CaL"]
+MECHS = ["HH", "Leak", "Na", "K", "Km", "CaL", "CaT"]
 SYN = ["IonotropicSynapse", "TestSynapse", "TanhRateSynapse"]
 NODE_KEYS = ["radius", "length", "axial_resistivity", "capacitance", "v"]
 L_INPUT = 4  # samples of every stimulus / clamp in a history
@@ -416,9 +416,9 @@ def invariants(m):
     known_cols = set(owners) | set(names)
     # columns of a channel that is no longer registered (left behind by a deletion). Only columns that carry the
     # name of a built-in mechanism are judged: a new bookkeeping column added by the library is not an inconsistency.
-    mech_prefixes = tuple(m_ + "_" for m_ in MECHS + ["CaT"])
+    mech_prefixes = tuple(m_ + "_" for m_ in MECHS)
     for col in nodes.columns:
-        if col in known_cols or not (col.startswith(mech_prefixes) or col in MECHS + ["CaT"]):
+        if col in known_cols or not (col.startswith(mech_prefixes) or col in MECHS):
             continue
         bad.append(("channels", f"column {col} belongs to no registered channel"))
     cur_names = {c.current_name for c in b.channels}
